@@ -297,6 +297,29 @@ def correspondence(outcome, tier, seed, targets, rng, n_hist):
                 "what": "a history of inputs to one translator does not produce the concatenation of the translations of each input "
                         "taken alone (each input succeeds alone)", "to": req["to"], "request": json_short(req),
                 "together_hex": got[:2000], "concatenation_of_single_runs_hex": want[:2000], "verdicts_together": oks})
+    # ... and document by document: an independent reader counts the documents of each input of those histories; a translation
+    # of that input alone to JSON that succeeds writes exactly that many lines
+    counted = set()
+    for req in suspects[:12]:
+        for c in req["calls"]:
+            fmt, hexin = c.get("from"), c.get("input", "-")
+            if not fmt or (fmt, hexin, c.get("mode")) in counted or len(counted) >= 60:
+                continue
+            counted.add((fmt, hexin, c.get("mode")))
+            data = bytes.fromhex(hexin) if hexin not in ("-", "") else b""
+            try:
+                n = len(gen.read_documents(data, fmt))
+            except Exception:
+                continue
+            res = shared.session_result(common.harness_batch([{"id": 0, "to": "json", "calls": [c]}])[0])
+            if res[0] != "ok":
+                continue
+            out = bytes.fromhex(res[2]) if res[2] not in ("-", "") else b""
+            if out.count(b"\n") != n:
+                outcome.oracle_failures.append({
+                    "what": "a %s input of %d documents comes out as %d JSON lines (%s input): documents dropped, merged, split or "
+                            "duplicated" % (fmt, n, out.count(b"\n"), c.get("mode")), "from": fmt, "to": "json", "call": json_short(c),
+                    "output": out[:300].decode("utf-8", "replace")})
     for d in outcome.disagreements:
         d.pop("_req", None)
     outcome.evaluations += n_single + len(reqs)
